@@ -53,11 +53,27 @@ enum BackendKind {
 
 #[inline]
 fn get_selected_backend() -> BackendKind {
+    #[cfg(curve25519_dalek_verif)]
+    match crate::verif::forced_backend() {
+        1 => {
+            crate::verif::note_backend(1);
+            return BackendKind::Serial;
+        }
+        #[cfg(curve25519_dalek_backend = "simd")]
+        2 => {
+            crate::verif::note_backend(2);
+            return BackendKind::Avx2;
+        }
+        _ => {}
+    }
+
     #[cfg(all(curve25519_dalek_backend = "unstable_avx512", nightly))]
     {
         cpufeatures::new!(cpuid_avx512, "avx512ifma", "avx512vl");
         let token_avx512: cpuid_avx512::InitToken = cpuid_avx512::init();
         if token_avx512.get() {
+            #[cfg(curve25519_dalek_verif)]
+            crate::verif::note_backend(3);
             return BackendKind::Avx512;
         }
     }
@@ -67,10 +83,14 @@ fn get_selected_backend() -> BackendKind {
         cpufeatures::new!(cpuid_avx2, "avx2");
         let token_avx2: cpuid_avx2::InitToken = cpuid_avx2::init();
         if token_avx2.get() {
+            #[cfg(curve25519_dalek_verif)]
+            crate::verif::note_backend(2);
             return BackendKind::Avx2;
         }
     }
 
+    #[cfg(curve25519_dalek_verif)]
+    crate::verif::note_backend(1);
     BackendKind::Serial
 }
 
